@@ -98,6 +98,7 @@ func main() {
 		traverse.NewPlugin(),
 		apply.NewPlugin(),
 	}
+	plugins = verifOrder(plugins)
 	log.SetFlags(0)
 	flag.Parse()
 	overridePrefixes := make(map[string]string)
